@@ -189,6 +189,9 @@ fn varlen_case<const M: usize>(ctx: &mut Ctx, data: &[u8], filler: u8) {
                 &format!("sha256varlen {M} {} {}", data.len(), hex(&buffer)),
                 &hex(&d),
             );
+            // the buffer layout itself (`get_lims` of the real code) against the model's `byteBuffer`, the
+            // function the general theorems `sha256_varlen_select_spec` / `…_digest_spec` are stated with
+            ctx.case(&format!("sha256:varlen:buffer:M{M}"), true, &format!("sha256buffer {M} {filler:02x} {}", hex(data)), &hex(&buffer));
             ctx.count(&format!("sha256:varlen:len%64={}", match data.len() % 64 { 0 => "0", 1..=54 => "1-54", 55 => "55", 56 => "56", 57..=62 => "57-62", _ => "63" }));
             if !ok {
                 ctx.oracle_fail(&format!("sha256:varlen:honest-rejected:{key}"), "MockProver rejects the honest var-len SHA-256 circuit", json!({"data": hex(data), "filler": filler, "failures": failures}));
@@ -238,6 +241,10 @@ fn run_varlen(ctx: &mut Ctx) {
 #[derive(Clone)]
 struct StdHash {
     which: &'static str,
+    /// `ZkStdLibArch` flag set for the run (`""` = the flag named like the entry point); the
+    /// Keccak/SHA3 chip is shared: `sha3_256` must also work when only `keccak_256` is enabled and
+    /// vice versa
+    arch: &'static str,
     out: Rc<RefCell<Option<Vec<u8>>>>,
 }
 
@@ -275,12 +282,20 @@ impl Relation for StdHash {
     }
 
     fn used_chips(&self) -> ZkStdLibArch {
+        let flag = if self.arch.is_empty() { self.which } else { self.arch };
+        // every flag off except the one under test (spelled out: independent of what `default()` enables)
         ZkStdLibArch {
-            sha2_256: self.which == "sha256",
-            sha2_512: self.which == "sha512",
-            sha3_256: self.which == "sha3_256",
-            keccak_256: self.which == "keccak_256",
-            blake2b: self.which.starts_with("blake2b"),
+            jubjub: false,
+            poseidon: false,
+            sha2_256: flag == "sha256",
+            sha2_512: flag == "sha512",
+            sha3_256: flag == "sha3_256",
+            keccak_256: flag == "keccak_256",
+            blake2b: flag.starts_with("blake2b"),
+            secp256k1: false,
+            bls12_381: false,
+            base64: false,
+            automaton: false,
             ..ZkStdLibArch::default()
         }
     }
@@ -290,6 +305,84 @@ impl Relation for StdHash {
     }
     fn read_relation<R: std::io::Read>(_r: &mut R) -> std::io::Result<Self> {
         unimplemented!()
+    }
+}
+
+/// `ZkStdLib::poseidon` alone in a relation (only the `poseidon` flag set).
+#[derive(Clone)]
+struct StdPoseidon {
+    out: Rc<RefCell<Option<F>>>,
+}
+
+impl Relation for StdPoseidon {
+    type Instance = ();
+    type Witness = Vec<F>;
+
+    fn format_instance(_: &Self::Instance) -> Result<Vec<F>, Error> {
+        Ok(vec![])
+    }
+
+    fn circuit(&self, std_lib: &ZkStdLib, layouter: &mut impl Layouter<F>, _instance: Value<()>, witness: Value<Vec<F>>) -> Result<(), Error> {
+        let mut xs: Vec<F> = vec![];
+        witness.as_ref().map(|w| xs = w.clone());
+        let vals: Vec<Value<F>> = xs.iter().map(|x| Value::known(*x)).collect();
+        let input: Vec<midnight_circuits::types::AssignedNative<F>> = std_lib.assign_many(layouter, &vals)?;
+        let d = std_lib.poseidon(layouter, &input)?;
+        d.value().map(|v| *self.out.borrow_mut() = Some(*v));
+        Ok(())
+    }
+
+    fn used_chips(&self) -> ZkStdLibArch {
+        ZkStdLibArch {
+            jubjub: false,
+            poseidon: true,
+            sha2_256: false,
+            sha2_512: false,
+            sha3_256: false,
+            keccak_256: false,
+            blake2b: false,
+            secp256k1: false,
+            bls12_381: false,
+            base64: false,
+            automaton: false,
+            ..ZkStdLibArch::default()
+        }
+    }
+
+    fn write_relation<W: std::io::Write>(&self, _w: &mut W) -> std::io::Result<()> {
+        Ok(())
+    }
+    fn read_relation<R: std::io::Read>(_r: &mut R) -> std::io::Result<Self> {
+        unimplemented!()
+    }
+}
+
+/// `ZkStdLib::poseidon` driven alone through `MidnightCircuit`; the digest is compared with the
+/// Lean model (`hash circuit …`) and the off-circuit `PoseidonChip::hash`.
+fn run_stdlib_poseidon(ctx: &mut Ctx) {
+    use midnight_circuits::hash::poseidon::PoseidonChip;
+    let mut rng = ctx.rng("stdlib-poseidon");
+    let lens: Vec<usize> = if ctx.quick() { vec![1, 2, 3] } else { vec![0, 1, 2, 3, 4, 5, 8] };
+    for len in lens {
+        let xs: Vec<F> = (0..len).map(|_| F::random(&mut rng)).collect();
+        let rel = StdPoseidon { out: Rc::new(RefCell::new(None)) };
+        let circuit = MidnightCircuit::new(&rel, Value::known(()), Value::known(xs.clone()), Some(8));
+        let hexes = mzkh::join(&xs.iter().map(mzkh::fe_hex).collect::<Vec<_>>());
+        match mock_run(&circuit, 10) {
+            Mock::Ran { ok, failures, .. } => {
+                ctx.count("mock:stdlib:poseidon");
+                let Some(d) = rel.out.borrow_mut().take() else { continue };
+                ctx.case("poseidon:stdlib", true, &format!("hash circuit {hexes}"), &mzkh::fe_hex(&d));
+                if !ok {
+                    ctx.oracle_fail(&format!("stdlib:poseidon:honest-rejected:len={len}"), "MockProver rejects the honest ZkStdLib poseidon circuit", json!({"inputs": hexes, "failures": failures}));
+                }
+                let cpu = <PoseidonChip<F> as HashCPU<F, F>>::hash(&xs);
+                if cpu != d {
+                    ctx.oracle_fail(&format!("stdlib:poseidon:in-circuit!=cpu:len={len}"), "ZkStdLib::poseidon digest differs from the off-circuit Poseidon hash", json!({"inputs": hexes, "circuit": mzkh::fe_hex(&d), "cpu": mzkh::fe_hex(&cpu)}));
+                }
+            }
+            Mock::Failed(e) => ctx.oracle_fail(&format!("stdlib:poseidon:synthesis-failed:len={len}"), "ZkStdLib poseidon circuit cannot be synthesised", json!({"inputs": hexes, "error": e})),
+        }
     }
 }
 
@@ -308,33 +401,40 @@ fn std_reference(which: &str, m: &[u8]) -> Vec<u8> {
 
 fn run_stdlib(ctx: &mut Ctx) {
     let mut rng = ctx.rng("stdlib-hashes");
-    let plan: Vec<(&'static str, u32, Vec<usize>)> = if ctx.quick() {
+    // every byte-hash entry point ALONE in a relation (only its own flag set: a table-loading flag
+    // forgotten by the entry point shows as a rejected honest circuit), plus the two entry points of
+    // the shared Keccak/SHA3 chip under the other one's flag
+    let plan: Vec<(&'static str, &'static str, u32, Vec<usize>)> = if ctx.quick() {
         vec![
-            ("sha256", 13, vec![3]),
-            ("sha512", 14, vec![5]),
-            ("sha3_256", 12, vec![0, 135, 136]),
-            ("keccak_256", 12, vec![1, 136]),
-            ("blake2b_256", 12, vec![0, 128]),
-            ("blake2b_512", 12, vec![129]),
+            ("sha256", "", 13, vec![3]),
+            ("sha512", "", 14, vec![5]),
+            ("sha3_256", "", 12, vec![0, 135, 136]),
+            ("keccak_256", "", 12, vec![1, 136]),
+            ("sha3_256", "keccak_256", 12, vec![2]),
+            ("keccak_256", "sha3_256", 12, vec![3]),
+            ("blake2b_256", "", 12, vec![0, 128]),
+            ("blake2b_512", "", 12, vec![129]),
         ]
     } else {
         vec![
-            ("sha256", 13, vec![0, 55, 56, 64]),
-            ("sha512", 14, vec![0, 111, 112, 128]),
-            ("sha3_256", 12, vec![0, 1, 2, 134, 135, 136, 137, 271, 272, 273]),
-            ("keccak_256", 12, vec![0, 1, 2, 134, 135, 136, 137, 271, 272, 273]),
-            ("blake2b_256", 12, vec![0, 1, 2, 127, 128, 129, 255, 256, 257]),
-            ("blake2b_512", 12, vec![0, 1, 2, 127, 128, 129, 255, 256, 257]),
+            ("sha256", "", 13, vec![0, 55, 56, 64]),
+            ("sha512", "", 14, vec![0, 111, 112, 128]),
+            ("sha3_256", "", 12, vec![0, 1, 2, 134, 135, 136, 137, 271, 272, 273]),
+            ("keccak_256", "", 12, vec![0, 1, 2, 134, 135, 136, 137, 271, 272, 273]),
+            ("sha3_256", "keccak_256", 12, vec![0, 135, 136]),
+            ("keccak_256", "sha3_256", 12, vec![0, 135, 136]),
+            ("blake2b_256", "", 12, vec![0, 1, 2, 127, 128, 129, 255, 256, 257]),
+            ("blake2b_512", "", 12, vec![0, 1, 2, 127, 128, 129, 255, 256, 257]),
         ]
     };
-    for (which, k0, lens) in plan {
+    for (which, arch, k0, lens) in plan {
         for len in lens {
             let m = gen_msg(&mut rng, len, 0);
-            let rel = StdHash { which, out: Rc::new(RefCell::new(None)) };
+            let rel = StdHash { which, arch, out: Rc::new(RefCell::new(None)) };
             let circuit = MidnightCircuit::new(&rel, Value::known(()), Value::known(m.clone()), Some(8));
             match mock_run(&circuit, k0) {
                 Mock::Ran { ok, failures, .. } => {
-                    ctx.count(&format!("mock:stdlib:{which}"));
+                    ctx.count(&format!("mock:stdlib:{which}{}", if arch.is_empty() { String::new() } else { format!("@{arch}") }));
                     let Some(d) = rel.out.borrow_mut().take() else { continue };
                     let want = std_reference(which, &m);
                     // SHA-2 through the library also feeds the Lean reference; the third-party
@@ -394,5 +494,6 @@ pub fn run(ctx: &mut Ctx) {
     run_fixed(ctx, H::Rmd160);
     run_varlen(ctx);
     run_stdlib(ctx);
+    run_stdlib_poseidon(ctx);
     run_tamper(ctx);
 }
